@@ -530,7 +530,7 @@ func init() {
 				{Name: "two-sessions", Desc: "one Client on two sessions: a second Join of the same room names the other session", Body: twoSessionsBody, MaxDev: 0, CutDepth: 1, Workers: 2, Budget: b, Env: env},
 				{Name: "overlapping-joins", Desc: "an unanswered join, a second join of the same room through the same client while it waits, the first given up at any instant", Body: overlapBody, MaxDev: pre - 1, ShardLevels: 2, Budget: b, Env: env},
 				{Name: "rejoin", Desc: "joining the same channel again (re-synchronisation or after a leave, same or new nickname), every answer, cancellation", Body: body("rejoin"), MaxDev: rejoinPre, ShardLevels: 2, Budget: b, Env: env},
-				drv.RacePart(8*pre, pre, b, body("join"), body("leave"), body("rooms"), kickBody, leaveTwiceBody, twoSessionsBody, body("rejoin"), overlapBody),
+				drv.RacePart(8*pre, pre, b, body("join"), body("leave"), body("rooms"), kickBody, leaveTwiceBody, twoSessionsBody, body("rejoin"), overlapBody, failedRejoinBody, joinErrorBody),
 			}
 		},
 	})
